@@ -50,6 +50,11 @@ def cmd_check(pid, tier):
     merged = Merged()
     try:
         tasks = list(mod.plan(ctx))
+        flt = os.environ.get("VERIF_TASK_FILTER")
+        if flt:
+            # debugging aid: run only the tasks whose description contains the text (evidence goes to the scratch area, not /verif/evidence)
+            tasks = [t for t in tasks if flt in repr(t)]
+            print("PARTIAL RUN: %d task(s) match %r" % (len(tasks), flt))
         random.Random(seed).shuffle(tasks)
         # longest-first would be better for balance, but order must not matter; keep seed shuffle
         pools.run(tasks, on_result=merged.add)
